@@ -8,14 +8,16 @@ HARNESS_BIN = 'c07'
 RUN_MODULE = 'Run.C07'
 COQ_EXTRA = ['Gen.C07Consts_ok']
 THEOREMS = ['C07_accounting', 'C07_disk_agrees', 'C07_lru_order', 'C07_get_is_use',
-            'C07_too_large_refused', 'C07_never_wedges', 'C07_recency_survives_restart']
+            'C07_too_large_refused', 'C07_never_wedges', 'C07_recency_survives_restart',
+            'C07_put_releases', 'C07_put_never_wedges']
 ASSUMPTIONS = [
     'no external interference with the cache directory for the disk-agreement and restart theorems (the property\'s "externally deleted files" are covered by the accounting / no-panic theorems and by the differential leg)',
     'the file-system clock is strictly monotone between file-touching calls (the harness rewrites each touched file\'s mtime to a logical clock after checking WHICH files the real code touched)',
-    'I/O errors other than "file missing" (permissions, disk full) are not modelled',
+    'I/O errors other than "file missing" and a failing write of the entry data in DiskCache::put (disk full / quota / EFBIG, injected through RLIMIT_FSIZE) are not modelled',
     'restart theorem only: no operation names a key whose file name starts with .sccachetmp (init deletes such files; sccache keys are hex digests)',
 ]
-TRUSTED = ['hook: LruDiskCache::verif_index / verif_pending (read-only views of the private LRU order and reservations)']
+TRUSTED = ['hook: LruDiskCache::verif_index / verif_pending (read-only views of the private LRU order and reservations)',
+           'hooks: DiskCache::verif_indexes (read-only), CacheWrite::verif_with_comment (entries of an exact size)']
 
 KEYS = [b'a', b'b', b'd/c', b'd/e']
 SIZES = [0, 1, 5, 10, 12, 13, 20, 25, 26]
@@ -219,6 +221,31 @@ def monitor(case, out):
                 if t in (b'insert_bytes', b'insert_file', b'prepare_add') and op[2] > cap:
                     if res != b'too_large' or prev[5] != index or prev[6] != files:
                         vs.append('op %d %s: oversized entry not refused cleanly' % (i, op))
+                # evictions happen only while space is needed: keeping the last evicted entry would have
+                # exceeded the limit (C07_lru_order: the evicted entries are a prefix; the loop stops as soon
+                # as stored + reserved + needed fits).  Sizes come from the cache's own index, so this holds
+                # with externally deleted files too.
+                ev = [e for e in prev[5][:len(p2) - len(n2)] if e[0] != k] if n2 == p2[len(p2) - len(n2):] else []
+                ev = [e for e in prev[5] if e[0] != k][:len(p2) - len(n2)]
+                if ev and n2 == p2[len(p2) - len(n2):]:
+                    if t in (b'get', b'remove', b'contains', b'write_tmp', b'abandon', b'ext_delete'):
+                        vs.append('op %d %s: entries %s evicted by an operation that needs no space' % (i, op, [e[0] for e in ev]))
+                    elif not (t == b'commit' and k in pidx) and size + ev[-1][1] <= cap:
+                        vs.append('op %d %s: live entry %s (%d bytes) evicted although there was room without it: stored+reserved %d of %d afterwards'
+                                  % (i, op, ev[-1][0], ev[-1][1], size, cap))
+                # a store that fits beside the live reservations is never refused (C07_never_wedges)
+                need = None
+                if t in (b'insert_bytes', b'insert_file', b'prepare_add'):
+                    need, before = op[2], prev[4]
+                elif t == b'insert_with' and not op[3]:
+                    need, before = op[2], prev[4]
+                elif t == b'commit' and res != b'bad_handle':
+                    hh = [h for h in prev[7] if h[0] == op[1]]
+                    if hh:
+                        need, before = hh[0][1], psize
+                if need is not None and res == b'too_large' and before + need <= cap:
+                    vs.append('op %d %s: a %d byte store refused as too large although only %d of %d bytes are reserved%s'
+                              % (i, op, need, before, cap, ' (and the cache is empty afterwards)' if not index else ''))
                 if t == b'remove' and k in keys:
                     vs.append('op %d remove: the key is still indexed after remove() (result %s): a ghost entry keeps being counted and evicts live entries' % (i, res.decode()))
                 if t in (b'insert_bytes', b'insert_file', b'insert_with') and res == b'ok' and (not keys or keys[-1] != k):
@@ -302,6 +329,141 @@ def compare_case(m, i, case):
     return norm(a) == norm(b)
 
 
+# ---------------------------------------------------------------- leg "put": DiskCache::put with write faults
+
+PKEYS = [b'aaaa0000', b'bbbb0001', b'cccc0002']
+
+
+def ppath(k):
+    return k[0:1] + b'/' + k[1:2] + b'/' + k
+
+
+def gen_put_exhaustive(depth):
+    alpha = [[b'put', b'aaaa0000', 40, 0], [b'put', b'bbbb0001', 40, 0], [b'put', b'cccc0002', 60, 0],
+             [b'put', b'aaaa0000', 40, 1], [b'put', b'bbbb0001', 60, 11], [b'put', b'cccc0002', 101, 1],
+             [b'get', b'aaaa0000'], [b'get', b'bbbb0001']]
+    out = []
+    for d in range(1, depth + 1):
+        for seq in itertools.product(alpha, repeat=d):
+            out.append([100, [list(o) for o in seq]])
+    return out
+
+
+def gen_put_random(rng, n, maxlen):
+    out = []
+    for _ in range(n):
+        cap = rng.choice([100, 150, 64])
+        ops = []
+        for _ in range(rng.range(1, maxlen)):
+            k = rng.choice(PKEYS)
+            if rng.chance(1, 4):
+                ops.append([b'get', k])
+            else:
+                sz = rng.choice([22, 30, 40, 50, 60, 64, 65, 100, 101, 151])
+                fault = 0 if rng.chance(1, 2) else rng.choice([1, 2, 11, 23, sz])
+                ops.append([b'put', k, sz, fault])
+        out.append([cap, ops])
+    return out
+
+
+def put_monitor(case, out):
+    """DiskCache (reserve -> write -> commit | abandon): no reservation and no temp file outlives a call, whatever
+    the outcome of the write; a store that fits is accepted.  Evaluated on the real implementation's observations."""
+    cap, ops = case[:2]
+    vs = []
+    if not isinstance(out, list) or len(out) != len(ops):
+        return ['malformed implementation output']
+    prev = []
+    for i, (op, obs) in enumerate(zip(ops, out)):
+        if obs and obs[0] == b'panic':
+            vs.append('op %d %s: the cache panicked' % (i, op))
+            break
+        res, size, index, ntmp = obs
+        keys = [e[0] for e in index]
+        isum = sum(e[1] for e in index)
+        k = ppath(op[1])
+        if size - isum != 0:
+            vs.append('op %d %s -> %s: %d bytes stay reserved although no store is in flight: the space is withheld until restart (the cache wedges)'
+                      % (i, op, res.decode(), size - isum))
+        if ntmp:
+            vs.append('op %d %s: %d temp file(s) left behind' % (i, op, ntmp))
+        if size > cap:
+            vs.append('op %d: stored+reserved %d exceeds the limit %d' % (i, size, cap))
+        if len(set(keys)) != len(keys):
+            vs.append('op %d: duplicate index keys' % i)
+        pk = [e[0] for e in prev]
+        p2 = [x for x in pk if x != k]
+        n2 = [x for x in keys if x != k]
+        if n2 != p2[len(p2) - len(n2):]:
+            vs.append('op %d %s: eviction not in LRU order: before %s after %s' % (i, op, pk, keys))
+        else:
+            ev = [e for e in prev if e[0] != k][:len(p2) - len(n2)]
+            if op[0] == b'get' and ev:
+                vs.append('op %d get evicted %s' % (i, ev))
+            if op[0] == b'put' and ev:
+                held = isum + (op[2] if res != b'ok' else 0)
+                if not (k in pk) and held + ev[-1][1] <= cap:
+                    vs.append('op %d %s: entry %s evicted although there was room without it' % (i, op, ev[-1][0]))
+        if op[0] == b'put':
+            n, fault = op[2], op[3]
+            if n > cap:
+                if res != b'too_large' or index != prev:
+                    vs.append('op %d %s: oversized entry not refused cleanly (%s)' % (i, op, res.decode()))
+            elif fault == 0 or fault - 1 >= n:
+                if res != b'ok' or not index or index[-1] != [k, n]:
+                    vs.append('op %d %s: an entry that fits was not stored (%s): earlier failed stores keep their space' % (i, op, res.decode()))
+            else:
+                if res != b'write_err':
+                    vs.append('op %d %s: failing write reported as %s' % (i, op, res.decode()))
+        else:
+            want = b'hit' if k in pk else b'miss'
+            if res != want:
+                vs.append('op %d %s: %s, expected %s' % (i, op, res.decode(), want.decode()))
+            if res == b'hit' and (not keys or keys[-1] != k):
+                vs.append('op %d get: looked-up key not most recent' % i)
+        prev = index
+    return vs
+
+
+def put_nontrivial(case, out):
+    try:
+        pn = 0
+        for op, obs in zip(case[1], out):
+            if obs[0] in (b'write_err', b'panic'):
+                return True
+            if len(obs[2]) < pn:
+                return True
+            pn = len(obs[2])
+    except Exception:
+        return True
+    return False
+
+
+def put_stats(case, out):
+    ks = ['put-cap=%d' % case[0]]
+    for op in case[1]:
+        ks.append('op=' + op[0].decode() + ('-fault' if op[0] == b'put' and op[3] else ''))
+    try:
+        for obs in out:
+            ks.append('res=' + obs[0].decode())
+    except Exception:
+        pass
+    return ks
+
+
+def put_shrink(case):
+    cap, ops = case[:2]
+    for i in range(len(ops)):
+        yield [cap, ops[:i] + ops[i + 1:]]
+
+
+def put_neighbours(case):
+    cap, ops = case[:2]
+    for i in range(1, len(ops)):
+        yield [cap, ops[i:] + ops[:i]]
+    yield [cap, ops + [[b'put', b'cccc0002', min(cap, 60), 0]]]
+
+
 def legs(tier):
     def gen(rng, tier):
         two = dict(keys=[b'a', b'b'], sizes=[0, 5, 10, 12, 13, 15])
@@ -310,8 +472,19 @@ def legs(tier):
                     + gen_random(rng, 20000, 12, True, **two) + gen_ties(rng, 5000))
         return (gen_exhaustive(3) + gen_scenarios(3) + gen_random(rng, 2200, 30) + gen_random(rng, 800, 30, True)
                 + gen_random(rng, 1500, 12, True, **two) + gen_ties(rng, 300))
+
+    def gen_put(rng, tier):
+        if tier == 'thorough':
+            return gen_put_exhaustive(5) + gen_put_random(rng, 20000, 14)
+        return gen_put_exhaustive(3) + gen_put_random(rng, 1200, 12)
     return [Leg('lru', gen, compare_case=compare_case, monitor=monitor, nontrivial=nontrivial, shrink=shrink, neighbours=neighbours,
                 stats=stats,
                 rule='exhaustive op sequences over a 10-op alphabet (depth 3 quick / 5 thorough) + exhaustive two-phase/overwrite scenarios on a full two-entry cache (12-op alphabet, depth 3/4) + state-aware PRNG sequences of '
                      'length<=30 over 4 keys x 9 sizes x 4 capacities incl. a reservation-heavy stream and pre-populated '
-                     'directories; non-trivial = at least one eviction or live reservation occurred; distinct by full case text')]
+                     'directories; non-trivial = at least one eviction or live reservation occurred; distinct by full case text'),
+            Leg('put', gen_put, monitor=put_monitor, nontrivial=put_nontrivial, shrink=put_shrink, neighbours=put_neighbours,
+                stats=put_stats,
+                rule='real DiskCache::put / get (reserve -> write -> commit | abandon) with write faults injected through '
+                     'RLIMIT_FSIZE (EFBIG after m bytes): exhaustive sequences over an 8-op alphabet (depth 3 quick / 5 thorough) '
+                     '+ PRNG sequences of length<=12 over 3 keys x 10 sizes x 3 capacities x 6 fault points; non-trivial = a write '
+                     'failed or an entry was evicted')]
